@@ -34,6 +34,16 @@ def configs(draw, tier="quick"):
         if draw(st.sampled_from([False, False, True])):
             steps = len(c["gaps"])
             c["episode_length"] = draw(st.integers(1, max(1, steps - 2)))
+        elif draw(st.sampled_from([False, True])):
+            # a grid timestep without any event, and a fold starting there or later
+            import bisect
+            g = E.grid_of(c)
+            gi = draw(st.integers(1, len(g) - 2))
+            times = [g[e[0] % len(g)] + e[1] for e in c["extras"]] + [g[p[0] % len(g)] + p[1] for p in c["pings"]]
+            if all(bisect.bisect_left(g, t) != gi for t in times if t <= g[-1]):
+                c["empty_points"] = [gi]
+                if draw(st.booleans()):
+                    c["fold"] = [g[gi], g[-1]]
     return c
 
 
@@ -189,6 +199,8 @@ def run(case):
         res.tag("defaults")
     if a.get("episode_length") or b.get("episode_length"):
         res.tag("episode-length")
+    if a.get("empty_points"):
+        res.tag("event-less-grid-timestep")
     if alternations >= 2:
         res.tag("interleaved")
     if any("exception" in s for s in ta):
